@@ -84,6 +84,8 @@ def shards(tier):
             for i in range(k):
                 out.append({"buf": buf, "geom": g, "slice": [i, k]})
         out.append({"buf": buf, "geom": {"kind": "flat"}, "slice": [0, 1]})
+    # compressed grains whose deflate stream ends within a few bytes of a sector boundary (marker header 12 or 4 bytes)
+    out.append({"buf": 8192, "geom": {"kind": "tuned"}, "slice": [0, 1]})
     return out
 
 
@@ -93,6 +95,12 @@ def _alpha(g):
 
 def run_shard(shard, ctx):
     g = shard["geom"]
+    if g["kind"] == "tuned":
+        for lba in (True, False):
+            for footer in (True, False):
+                for L in range(492, 520):
+                    run_case({"geom": g, "len": L, "lba": lba, "footer": footer}, ctx)
+        return
     if g["kind"] == "flat":
         for nsec in (1, 15, 16, 17, 33, 130):
             run_case({"geom": g, "nsec": nsec}, ctx)
@@ -141,7 +149,33 @@ def run_case(case, ctx):
     buf = bootstrap.bufsize()
     ctx.executions += 1
     ctx.sample(case)
-    if g["kind"] == "flat":
+    if g["kind"] == "tuned":
+        L = case["len"]
+        grain = 8
+        explicit = {}
+        for gi, seed in ((0, 1), (2, 2), (3, 3)):
+            b = B.tuned_grain(grain, L + (gi % 2), seed) or B.tuned_grain(grain, L, seed)
+            if b is not None:
+                explicit[gi] = b
+        states, slots = [DATA, B.CDATA, DATA, DATA, HOLE], [2, 0, 1, 3, None]
+        if len(explicit) < 3:
+            return
+        capacity = 5 * grain - 3
+        size = capacity * 512
+        img = B.build_hosted(states, slots, grain, 512, capacity, footer=case["footer"], compressed=True, stride=4,
+                             explicit=explicit, embedded_lba=case["lba"])
+        disk = B.model(states, grain, capacity, explicit=explicit)
+        ctx.model(case)
+        ctx.nontrivial += 1
+        ctx.outcome("data@L1")
+        pts = [0, 1, 4095, 4096, 8192, 8193, 3 * 4096 - 1, 3 * 4096, 4 * 4096, size - 1, size]
+        reqs = request_pairs(pts)
+        sreqs = [(0, 8), (7, 2), (8, 8), (16, 16), (0, capacity)]
+        states = slots = srcs = full_states = full_slots = None
+        unit = 4096
+        subject = "vmdk.hosted.compressed" + (".lba" if case["lba"] else ".nolba") + (".footer" if case["footer"] else "")
+        fh = img.bytesio()
+    elif g["kind"] == "flat":
         nsec = case["nsec"]
         size = nsec * 512
         img = B.build_flat(nsec)
@@ -187,7 +221,9 @@ def run_case(case, ctx):
             ctx.violation(case, {"subject": subject + ".size", "kind": "mismatch"}, {"got": v.size, "expected": size})
             return
         if srcs is None:
-            if states is None:
+            if g["kind"] == "tuned":
+                pass
+            elif states is None:
                 ctx.outcome("raw", len(reqs))
                 ctx.nontrivial += 1
             else:
